@@ -5,7 +5,9 @@ import (
 	"crypto/sha256"
 	"encoding/hex"
 	"fmt"
+	"regexp"
 	"runtime"
+	"sort"
 	"strings"
 	"sync"
 	"sync/atomic"
@@ -66,8 +68,15 @@ type StepInfo struct {
 	Ref            *Ref                        // reference of that ledger after the step
 	RefPrev        *Ref                        // reference before the step
 	Refs           map[string]*Ref
-	Ctrls          map[string]ledgercontroller.Controller // every ledger's live controller
+	Ctrls          map[string]ledgercontroller.Controller // every ROUTABLE ledger's live controller
 	DumpPrev, Dump string
+
+	// Gone: the ledgers that exist but cannot be routed any more (their bucket was soft-deleted:
+	// the API answers 404 for them). Their rows are still in the bucket schema and their
+	// reference is still in Refs (a restore makes them routable again, unchanged).
+	Gone map[string]bool
+	// Buckets: ledger -> bucket, of every ledger created so far.
+	Buckets map[string]string
 }
 
 type SeqExplorer struct {
@@ -98,6 +107,15 @@ type SeqStats struct {
 }
 
 func dumpFilter(schema, table string) bool { return table == "goose_db_version" }
+
+// DeleteBucket stamps _system.ledgers.deleted_at with the WALL clock (time.Now() in the
+// system store, not the database clock): the value is masked in the canonical dumps so that
+// the state count does not depend on when a run took place.
+var deletedAtValue = regexp.MustCompile(`deleted_at=[^|\n]*`)
+
+func canonDump(pg *pgsim.DB) string {
+	return deletedAtValue.ReplaceAllString(pg.DumpFiltered(false, dumpFilter), "deleted_at=<wall-clock>")
+}
 
 func hashOf(s string) string {
 	h := sha256.Sum256([]byte(s))
@@ -235,12 +253,33 @@ func (e *SeqExplorer) RunPath(ctx context.Context, path []Op) (*Report, error) {
 	return rep, err
 }
 
+// firstLive names the first routable ledger: the first of the configuration that has a
+// controller, else the first (by name) of those created mid-history, else "".
+func (e *SeqExplorer) firstLive(ctrls map[string]ledgercontroller.Controller) string {
+	for _, l := range e.Ledgers {
+		if ctrls[l.Name] != nil {
+			return l.Name
+		}
+	}
+	var names []string
+	for n := range ctrls {
+		names = append(names, n)
+	}
+	sort.Strings(names)
+	if len(names) > 0 {
+		return names[0]
+	}
+	return ""
+}
+
 func (e *SeqExplorer) runPath(ctx context.Context, boot *pgsim.DB, path []Op) (*StepInfo, *Report, error) {
 	pg := boot.Clone()
 	w := world.Attach(pg)
 	defer w.Close()
 	ctrls := map[string]ledgercontroller.Controller{}
 	refs := map[string]*Ref{}
+	gone := map[string]bool{}
+	buckets := map[string]string{}
 	for _, l := range e.Ledgers {
 		c, err := w.Sys.GetLedgerController(ctx, l.Name)
 		if err != nil {
@@ -248,8 +287,22 @@ func (e *SeqExplorer) runPath(ctx context.Context, boot *pgsim.DB, path []Op) (*
 		}
 		ctrls[l.Name] = c
 		refs[l.Name] = NewRef()
+		buckets[l.Name] = l.Bucket
+		if l.Bucket == "" {
+			buckets[l.Name] = ledger.DefaultBucket
+		}
 	}
-	info := &StepInfo{Path: path, W: w, Refs: refs, Ctrls: ctrls}
+	info := &StepInfo{Path: path, W: w, Refs: refs, Ctrls: ctrls, Gone: gone, Buckets: buckets}
+	// systemLast records a system-level last operation (ledger creation, bucket soft delete /
+	// restore): the "current ledger" of the step is then the first routable one
+	systemLast := func(op Op, out Outcome) {
+		info.Last, info.Out = op, out
+		n := e.firstLive(ctrls)
+		info.Ctrl, info.Ref = ctrls[n], refs[n]
+		if info.Ref != nil {
+			info.RefPrev = info.Ref.Clone()
+		}
+	}
 	for i, op := range path {
 		name := op.Ledger
 		if name == "" {
@@ -259,10 +312,12 @@ func (e *SeqExplorer) runPath(ctx context.Context, boot *pgsim.DB, path []Op) (*
 			// creates ledger op.Ledger in bucket op.Address mid-history (idempotent for the path)
 			last := i == len(path)-1
 			if last {
-				info.DumpPrev = pg.DumpFiltered(false, dumpFilter)
+				info.DumpPrev = canonDump(pg)
 			}
 			var out Outcome
 			if ctrls[name] == nil {
+				// (also reached when the ledger exists but was soft-deleted with its bucket: the
+				// system controller then refuses the name, and nothing changes)
 				out.Err = w.CreateLedger(ctx, name, ledger.Configuration{Bucket: op.Address})
 				if out.Err == nil {
 					c, err := w.Sys.GetLedgerController(ctx, name)
@@ -271,6 +326,8 @@ func (e *SeqExplorer) runPath(ctx context.Context, boot *pgsim.DB, path []Op) (*
 					}
 					ctrls[name] = c
 					refs[name] = NewRef()
+					buckets[name] = op.Address
+					delete(gone, name)
 				}
 			} else {
 				out.Err = fmt.Errorf("ledger already exists")
@@ -280,26 +337,78 @@ func (e *SeqExplorer) runPath(ctx context.Context, boot *pgsim.DB, path []Op) (*
 				return nil, nil, fmt.Errorf("engine error in %s: %v", op, out.Err)
 			}
 			if last {
-				info.Last, info.Out = op, out
-				info.Ctrl, info.Ref = ctrls[e.Ledgers[0].Name], refs[e.Ledgers[0].Name]
-				info.RefPrev = info.Ref.Clone()
+				systemLast(op, out)
+			}
+			continue
+		}
+		if op.Kind == "deletebucket" || op.Kind == "restorebucket" {
+			// DELETE /v2/_/buckets/{bucket} (soft delete: every ledger of the bucket gets a
+			// deleted_at, the rows stay in the bucket schema until the cleanup worker drops it
+			// after the retention period) and POST /v2/_/buckets/{bucket}/restore. op.Address
+			// is the bucket.
+			last := i == len(path)-1
+			if last {
+				info.DumpPrev = canonDump(pg)
+			}
+			var out Outcome
+			if op.Kind == "deletebucket" {
+				out.Err = w.Sys.DeleteBucket(ctx, op.Address)
+			} else {
+				out.Err = w.Sys.RestoreBucket(ctx, op.Address)
+			}
+			out.Class = Classify(out.Err)
+			if out.Class == "ENGINE" {
+				return nil, nil, fmt.Errorf("engine error in %s: %v", op, out.Err)
+			}
+			// Which ledgers can still be routed is the implementation's answer, asked the way
+			// the API's ledger middleware asks it for every request (system store GetLedger,
+			// first step of Driver.OpenLedger); it is asked for EVERY ledger, not only for those
+			// of op.Address. A ledger that stopped being routable is "gone": its controller is
+			// dropped (the API would answer 404), its reference is kept. A gone ledger that is
+			// routable again is re-opened and must read exactly as its reference says.
+			// Controllers of ledgers that stayed routable are kept as they are (live stores of a
+			// bucket share the alone-in-bucket flag).
+			known := make([]string, 0, len(refs))
+			for n := range refs {
+				known = append(known, n)
+			}
+			sort.Strings(known)
+			for _, n := range known {
+				_, err := w.Sys.GetLedger(ctx, n)
+				switch cl := Classify(err); {
+				case err == nil && ctrls[n] == nil:
+					c, err := w.Sys.GetLedgerController(ctx, n)
+					if err != nil {
+						return nil, nil, fmt.Errorf("GetLedgerController(%s) after %s: %w", n, op, err)
+					}
+					ctrls[n] = c
+					delete(gone, n)
+				case err == nil:
+				case cl == "not_found":
+					delete(ctrls, n)
+					gone[n] = true
+				default:
+					return nil, nil, fmt.Errorf("GetLedger(%s) after %s: %v", n, op, err)
+				}
+			}
+			if last {
+				systemLast(op, out)
 			}
 			continue
 		}
 		c := ctrls[name]
 		last := i == len(path)-1
 		if c == nil {
-			// the ledger does not exist (yet): the request cannot even be routed
+			// the ledger does not exist (yet) or was soft-deleted with its bucket: the request
+			// cannot even be routed
 			if last {
-				info.DumpPrev = pg.DumpFiltered(false, dumpFilter)
-				info.Last, info.Out = op, Outcome{Err: fmt.Errorf("ledger %s does not exist", name), Class: "no_such_ledger"}
-				info.Ctrl, info.Ref = ctrls[e.Ledgers[0].Name], refs[e.Ledgers[0].Name]
-				info.RefPrev = info.Ref.Clone()
+				info.DumpPrev = canonDump(pg)
+				systemLast(op, Outcome{Err: fmt.Errorf("ledger %s does not exist", name), Class: "no_such_ledger"})
 			}
 			continue
 		}
 		if last {
-			info.DumpPrev = pg.DumpFiltered(false, dumpFilter)
+			info.DumpPrev = canonDump(pg)
 			info.RefPrev = refs[name].Clone()
 		}
 		if op.DeadlockAt > 0 {
@@ -325,7 +434,7 @@ func (e *SeqExplorer) runPath(ctx context.Context, boot *pgsim.DB, path []Op) (*
 			// report through the oracle of the last step, not as an engine error
 			if last {
 				info.Last, info.Out, info.Ctrl, info.Ref = op, out, c, refs[name]
-				info.Dump = pg.DumpFiltered(false, dumpFilter)
+				info.Dump = canonDump(pg)
 				rep := &Report{}
 				rep.Add("ref:uninterpretable", "%v", err)
 				return info, rep, nil
@@ -336,7 +445,7 @@ func (e *SeqExplorer) runPath(ctx context.Context, boot *pgsim.DB, path []Op) (*
 			info.Last, info.Out, info.Ctrl, info.Ref = op, out, c, refs[name]
 		}
 	}
-	info.Dump = pg.DumpFiltered(false, dumpFilter)
+	info.Dump = canonDump(pg)
 	rep := &Report{}
 	e.Check(ctx, info, rep)
 	if e.Restart {
@@ -344,11 +453,14 @@ func (e *SeqExplorer) runPath(ctx context.Context, boot *pgsim.DB, path []Op) (*
 		defer w2.Close()
 		name := info.Last.Ledger
 		if name == "" || ctrls[name] == nil || info.Last.Kind == "createledger" {
-			name = e.Ledgers[0].Name
+			name = e.firstLive(ctrls)
 		}
-		c2, err := w2.Sys.GetLedgerController(ctx, name)
-		if err != nil {
-			return nil, nil, err
+		var c2 ledgercontroller.Controller
+		if name != "" {
+			var err error
+			if c2, err = w2.Sys.GetLedgerController(ctx, name); err != nil {
+				return nil, nil, err
+			}
 		}
 		rep2 := &Report{}
 		i2 := *info
